@@ -40,7 +40,8 @@ def cases(ctx):
         out.append(("fixture:" + name, doc))
     n = 300 if ctx.tier == "thorough" else 36
     for k in range(n):
-        fs = gen.FEATURE_SETS["recursive"] if k % 4 == 3 else gen.DEFAULT_FEATURES
+        fs = [gen.DEFAULT_FEATURES, gen.FEATURE_SETS["formats"], gen.FEATURE_SETS["allof"], gen.FEATURE_SETS["recursive"],
+              gen.DEFAULT_FEATURES, gen.FEATURE_SETS["maps"] - {"defaults"}][k % 6]
         out.append(("gen:%d" % k, gen.gen_universe(ctx.rng, 3 + k % 7, set(fs))))
     return out
 
